@@ -219,7 +219,7 @@ Proof.
       * left. split; [exact Z|]. intros k e' H. destruct k; cbn in H; [inversion H; subst; exact M|eapply A; exact H].
       * right. exists (S k), e'. cbn [nth_error]. repeat split; try assumption; try lia.
         intros j e2 LT H. destruct j; cbn in H; [inversion H; subst; exact M|eapply B; [|exact H]; lia].
-    + right. exists 0%nat, e. cbn. repeat split; try lia; try assumption. intros j e' LT. lia.
+    + right. exists 0%nat, e. cbn. repeat split; try lia; try assumption.
 Qed.
 
 (* ---------- raftLog.append ---------- *)
@@ -248,7 +248,7 @@ Proof.
       unfold ms_last_index, nlen in B. lia. }
   destruct (u_truncate_and_append_wf _ _ _ _ _ U eq_refl C SN LE TA) as (UW' & S' & SP' & O' & E' & OP').
   unfold l_wf, lview, l_with_unstable. cbn [l_unstable l_committed].
-  rewrite S', O', E'.
+  rewrite S', O', E'. unfold lview in R.
   destruct (u_snapshot (l_unstable l)) as [s|] eqn:SNE.
   - (* snapshot: offset stays s_index + 1 *)
     cbn [a_base] in R. split; [|split; [|reflexivity]].
@@ -279,3 +279,290 @@ Proof.
           with (N.to_nat (e_index e0 - u_offset (l_unstable l))) by lia.
         rewrite <- app_assoc. reflexivity.
 Qed.
+
+(* ---------- raftLog.maybeAppend ---------- *)
+
+Definition a_maybe_append (a : abslog) (prevIndex prevTerm : N) (ents : list entry) : option abslog :=
+  if a_match a prevIndex prevTerm then
+    let ci := a_find_conflict a ents in
+    Some (if N.eqb ci 0 then a else a_truncate_append a (skipn (N.to_nat (ci - (prevIndex + 1))) ents))
+  else None.
+
+Lemma l_commit_to_unstable st l c l' : l_commit_to st l c = Ok l' -> l_unstable l' = l_unstable l.
+Proof.
+  unfold l_commit_to. destruct (l_committed l <? c); [|intros H; inversion H; reflexivity].
+  destruct (l_last_index st l <? c); [discriminate|]. intros H; inversion H; reflexivity.
+Qed.
+
+Lemma l_wf_unstable st l l' : l_unstable l' = l_unstable l -> l_wf st l -> l_wf st l'.
+Proof. unfold l_wf. intros E. rewrite E. auto. Qed.
+
+Lemma lview_unstable st l l' : l_unstable l' = l_unstable l -> lview st l' = lview st l.
+Proof. unfold lview. intros E. rewrite E. reflexivity. Qed.
+
+Lemma nth_error_skipn_cons {A} (l : list A) : forall k e, nth_error l k = Some e -> skipn k l = e :: skipn (S k) l.
+Proof.
+  induction l as [|x l IH]; intros k e H; destruct k; cbn in *; try discriminate.
+  - inversion H; reflexivity.
+  - apply IH. exact H.
+Qed.
+
+Theorem l_maybe_append_view st l prev pt ents c l' r :
+  l_wf st l -> contig (prev + 1) ents -> a_base (lview st l) <= l_committed l ->
+  l_maybe_append st l prev pt ents c = Ok (l', r) ->
+  l_wf st l' /\
+  match a_maybe_append (lview st l) prev pt ents with
+  | Some a' => lview st l' = a' /\ r = Some (prev + nlen ents)
+  | None => l' = l /\ r = None
+  end.
+Proof.
+  intros W C BC H. unfold l_maybe_append in H. unfold a_maybe_append.
+  rewrite (l_match_term_view st l _ _ W), (l_find_conflict_view st l _ W) in H.
+  destruct (a_match (lview st l) prev pt) eqn:PM; cbn [negb] in H.
+  2:{ inversion H; subst. split; [exact W|split; reflexivity]. }
+  set (ci := a_find_conflict (lview st l) ents) in *.
+  destruct (N.eqb_spec ci 0) as [Z|NZ].
+  - cbn [bind] in H. destruct (l_commit_to st l (N.min c (prev + nlen ents))) as [l2|] eqn:CT; cbn [bind] in H; [|discriminate].
+    inversion H; subst l' r. pose proof (l_commit_to_unstable _ _ _ _ CT) as EU.
+    split; [exact (l_wf_unstable st l l2 EU W)|]. split; [exact (lview_unstable st l l2 EU)|reflexivity].
+  - destruct (N.leb_spec ci (l_committed l)) as [LE|GT]; [discriminate|].
+    destruct (N.ltb_spec (nlen ents) (sub64 ci (prev + 1))) as [X|X]; [discriminate|].
+    destruct (l_append st l (ndrop (ci - (prev + 1)) ents)) as [l1|] eqn:AP; cbn [bind] in H; [|discriminate].
+    destruct (l_commit_to st l1 (N.min c (prev + nlen ents))) as [l2|] eqn:CT; cbn [bind] in H; [|discriminate].
+    inversion H; subst l' r. pose proof (l_commit_to_unstable _ _ _ _ CT) as EU.
+    destruct (a_find_conflict_spec (lview st l) ents (prev + 1) C ltac:(lia)) as [[Z _]|(k & e & NE & F & EI & MF & BEF)];
+      [fold ci in Z; contradiction|]. fold ci in F.
+    assert (DK : ndrop (ci - (prev + 1)) ents = e :: skipn (S k) ents).
+    { rewrite ndrop_skipn. replace (N.to_nat (ci - (prev + 1))) with k by lia. apply nth_error_skipn_cons. exact NE. }
+    assert (CK : contig (e_index e) (e :: skipn (S k) ents)).
+    { rewrite <- (nth_error_skipn_cons _ _ _ NE). rewrite EI. apply contig_skipn. exact C. }
+    assert (R : a_base (lview st l) < e_index e <= a_last (lview st l) + 1).
+    { split; [lia|]. destruct k as [|k'].
+      - unfold a_match in PM. destruct (a_term (lview st l) prev) eqn:AT; [|discriminate].
+        pose proof (a_term_some _ _ _ AT). lia.
+      - destruct (nth_error ents k') as [e'|] eqn:NK.
+        + pose proof (BEF k' e' ltac:(lia) NK) as MB. unfold a_match in MB.
+          destruct (a_term (lview st l) (e_index e')) eqn:AT; [|discriminate].
+          pose proof (a_term_some _ _ _ AT). pose proof (contig_nth _ _ _ _ C NK). lia.
+        + apply nth_error_None in NK. apply nth_error_Some_lt' in NE. lia. }
+    rewrite DK in AP.
+    destruct (l_append_view st l _ l1 e (skipn (S k) ents) W eq_refl CK R AP) as (W1 & V1 & _).
+    split; [exact (l_wf_unstable st l1 l2 EU W1)|]. split; [|reflexivity].
+    rewrite (lview_unstable st l1 l2 EU), V1. f_equal.
+    replace (N.to_nat (ci - (prev + 1))) with k by lia. symmetry. apply nth_error_skipn_cons. exact NE.
+Qed.
+
+(* ---------- the abstract maybeAppend is the FollowerAppend rule of Spec/LogMatching.v ---------- *)
+
+From RaftV Require LogMatching.
+
+Section ToProtocol.
+Variable pay : entry -> N.     (* any naming of payloads (type and data) *)
+
+Definition absent (e : entry) : LogMatching.aent := (e_term e, pay e).
+Definition absl (a : abslog) : list LogMatching.aent := map absent (a_ents a).
+
+Lemma a_match_pos a p t : a_base a = 0 ->
+  a_match a (N.of_nat p + 1) t =
+  match nth_error (absl a) p with Some x => N.eqb (fst x) t | None => false end.
+Proof.
+  intros B. unfold a_match, a_term, a_at, absl. rewrite B.
+  destruct (N.eqb_spec (N.of_nat p + 1) 0); [lia|].
+  destruct (N.leb_spec (N.of_nat p + 1) 0); [lia|].
+  replace (N.to_nat (N.of_nat p + 1 - 0 - 1)) with p by lia.
+  rewrite nth_error_map. destruct (nth_error (a_ents a) p); reflexivity.
+Qed.
+
+Lemma find_conflict_pos a : a_base a = 0 -> forall ents p, contig (N.of_nat p + 1) ents ->
+  match LogMatching.first_conflict (skipn p (absl a)) (map absent ents) with
+  | None => a_find_conflict a ents = 0
+  | Some c => a_find_conflict a ents = N.of_nat p + 1 + N.of_nat c /\ (c < length ents)%nat
+  end.
+Proof.
+  intros B. induction ents as [|e rest IH]; intros p C; cbn [map LogMatching.first_conflict a_find_conflict]; [reflexivity|].
+  destruct C as [EI C]. rewrite EI, (a_match_pos a p _ B).
+  destruct (nth_error (absl a) p) as [x|] eqn:NX.
+  - rewrite (nth_error_skipn_cons _ _ _ NX). cbn [absent fst].
+    destruct (N.eqb (fst x) (e_term e)).
+    + specialize (IH (S p)). replace (N.of_nat (S p) + 1) with (N.of_nat p + 1 + 1) in IH by lia. specialize (IH C).
+      destruct (LogMatching.first_conflict (skipn (S p) (absl a)) (map absent rest)) as [c|].
+      * destruct IH as [F L]. split; [lia|cbn; lia].
+      * exact IH.
+    + split; [lia|cbn; lia].
+  - assert (SK : skipn p (absl a) = []) by (apply skipn_all2; apply nth_error_None; exact NX).
+    rewrite SK. split; [lia|cbn; lia].
+Qed.
+
+Lemma a_match_prev a prev pt : a_base a = 0 -> a_base_term a = 0 ->
+  (a_match a prev pt = true <-> LogMatching.prev_term (absl a) (N.to_nat prev) = Some pt).
+Proof.
+  intros B BT. destruct (N.eq_dec prev 0) as [->|NZ].
+  - unfold a_match, a_term. rewrite B, BT. cbn [N.eqb LogMatching.prev_term N.to_nat]. split; [intros H; destruct pt; [reflexivity|discriminate]|intros H; inversion H; reflexivity].
+  - replace prev with (N.of_nat (N.to_nat prev - 1) + 1) at 1 by lia. rewrite (a_match_pos a _ _ B).
+    unfold LogMatching.prev_term. destruct (N.to_nat prev) as [|p] eqn:P; [lia|].
+    replace (S p - 1)%nat with p by lia.
+    destruct (nth_error (absl a) p) as [x|]; [|split; discriminate].
+    split; [intros H; apply N.eqb_eq in H; congruence|intros H; inversion H; apply N.eqb_refl].
+Qed.
+
+(* The refinement: on a log that was never compacted (base 0), maybeAppend accepts exactly when
+   the FollowerAppend rule's (prev index, prev term) match holds, and the new logical log is
+   the rule's result. *)
+Theorem a_maybe_append_is_follower_rule a prev pt ents :
+  a_base a = 0 -> a_base_term a = 0 -> contig (prev + 1) ents ->
+  match a_maybe_append a prev pt ents with
+  | Some a' =>
+      LogMatching.prev_term (absl a) (N.to_nat prev) = Some pt /\
+      absl a' = LogMatching.fappend (absl a) (N.to_nat prev) (map absent ents) /\
+      a_base a' = 0 /\ a_base_term a' = 0
+  | None => LogMatching.prev_term (absl a) (N.to_nat prev) <> Some pt
+  end.
+Proof.
+  intros B BT C. unfold a_maybe_append.
+  destruct (a_match a prev pt) eqn:PM.
+  2:{ intros H. apply (a_match_prev a prev pt B BT) in H. congruence. }
+  split; [apply (a_match_prev a prev pt B BT); exact PM|].
+  unfold LogMatching.fappend.
+  pose proof (find_conflict_pos a B ents (N.to_nat prev)) as FC.
+  replace (N.of_nat (N.to_nat prev) + 1) with (prev + 1) in FC by lia. specialize (FC C).
+  destruct (LogMatching.first_conflict (skipn (N.to_nat prev) (absl a)) (map absent ents)) as [c|].
+  - destruct FC as [F L]. rewrite F.
+    destruct (N.eqb_spec (prev + 1 + N.of_nat c) 0); [lia|].
+    replace (N.to_nat (prev + 1 + N.of_nat c - (prev + 1))) with c by lia.
+    destruct (skipn c ents) as [|e0 rest] eqn:SK.
+    { exfalso. assert (LL : length (skipn c ents) = 0%nat) by (rewrite SK; reflexivity). rewrite skipn_length in LL. lia. }
+    assert (EI : e_index e0 = prev + 1 + N.of_nat c).
+    { pose proof (contig_skipn _ _ c C) as CS. rewrite SK in CS. destruct CS as [CS _]. exact CS. }
+    unfold a_truncate_append, absl. cbn [a_ents a_base a_base_term]. rewrite EI, B.
+    replace (N.to_nat (prev + 1 + N.of_nat c - 0 - 1)) with (N.to_nat prev + c)%nat by lia.
+    rewrite map_app, firstn_map, <- SK, skipn_map. auto.
+  - rewrite FC. cbn. auto.
+Qed.
+
+End ToProtocol.
+
+(* ---------- the leader's append and the voter's up-to-date test ---------- *)
+
+(* appendEntry: entries stamped lastIndex+1.. extend the logical log at its end (the
+   LeaderAppend rule) *)
+Theorem l_append_end_view st l ents l' e0 rest :
+  l_wf st l -> ents = e0 :: rest -> contig (e_index e0) ents ->
+  e_index e0 = a_last (lview st l) + 1 ->
+  l_append st l ents = Ok l' ->
+  l_wf st l' /\
+  lview st l' = mkAbs (a_base (lview st l)) (a_base_term (lview st l)) (a_ents (lview st l) ++ ents).
+Proof.
+  intros W E C EI H.
+  assert (R : a_base (lview st l) < e_index e0 <= a_last (lview st l) + 1) by (unfold a_last in *; lia).
+  destruct (l_append_view st l ents l' e0 rest W E C R H) as (W' & V & _). split; [exact W'|].
+  rewrite V. unfold a_truncate_append. subst ents. f_equal.
+  rewrite firstn_all2; [reflexivity|]. unfold a_last, nlen in EI. lia.
+Qed.
+
+From RaftV Require Safety.
+
+Section UpToDate.
+Variable pay : entry -> N.
+
+(* lastEntryID is (term of the last entry, length) of the logical log *)
+Lemma l_last_entry_id_view st l t i :
+  l_wf st l -> a_base (lview st l) = 0 -> a_base_term (lview st l) = 0 ->
+  l_last_entry_id st l = Ok (t, i) ->
+  t = Safety.lastT (absl pay (lview st l)) /\ i = N.of_nat (length (absl pay (lview st l))).
+Proof.
+  intros W B BT H. unfold l_last_entry_id in H. rewrite (lview_last st l W) in H.
+  destruct (l_term_view st l (a_last (lview st l)) W) as [IN _].
+  destruct (IN ltac:(unfold a_last; lia)) as [t' [LT AT]]. rewrite LT in H. inversion H; subst t' i.
+  unfold absl. rewrite map_length. split; [|unfold a_last, nlen; lia].
+  unfold a_term, a_at, a_last in AT. rewrite B, BT in AT.
+  destruct (a_ents (lview st l)) as [|x xs] eqn:EN.
+  - cbn in AT. inversion AT. reflexivity.
+  - assert (NE : map (absent pay) (x :: xs) <> []) by discriminate.
+    destruct (Safety.lastT_nth _ NE) as [e [NL LE]]. rewrite LE.
+    rewrite map_length in NL. rewrite nth_error_map in NL.
+    destruct (N.eqb_spec (0 + nlen (x :: xs)) 0) as [Z|NZ]; [unfold nlen in Z; cbn in Z; lia|].
+    destruct (N.leb_spec (0 + nlen (x :: xs)) 0) as [Z|NZ2]; [unfold nlen in Z; cbn in Z; lia|].
+    replace (N.to_nat (0 + nlen (x :: xs) - 0 - 1)) with (length (x :: xs) - 1)%nat in AT by (unfold nlen; lia).
+    destruct (nth_error (x :: xs) (length (x :: xs) - 1)) as [e1|]; [|discriminate].
+    cbn in NL. inversion NL; subst e. inversion AT. reflexivity.
+Qed.
+
+(* isUpToDate(candidate's last term, last index) is the up-to-date rule of Spec/Safety.v, given
+   a candidate log with that last term and length *)
+Theorem l_is_up_to_date_view st l term index b lc :
+  l_wf st l -> a_base (lview st l) = 0 -> a_base_term (lview st l) = 0 ->
+  Safety.lastT lc = term -> N.of_nat (length lc) = index ->
+  l_is_up_to_date st l term index = Ok b ->
+  (b = true <-> Safety.utd lc (absl pay (lview st l))).
+Proof.
+  intros W B BT LT LI H. unfold l_is_up_to_date in H.
+  destruct (l_last_entry_id st l) as [[ot oi]|] eqn:LE; cbn [bind] in H; [|discriminate].
+  destruct (l_last_entry_id_view st l ot oi W B BT LE) as [E1 E2]. inversion H; subst b; clear H.
+  unfold Safety.utd. rewrite <- E1. rewrite LT.
+  split.
+  - intros X. apply orb_true_iff in X. destruct X as [X|X].
+    + left. apply N.ltb_lt in X. exact X.
+    + apply andb_true_iff in X. destruct X as [X1 X2]. apply N.eqb_eq in X1. apply N.leb_le in X2. right. split; [exact X1|lia].
+  - intros [X|[X1 X2]]; apply orb_true_iff.
+    + left. apply N.ltb_lt. exact X.
+    + right. apply andb_true_iff. split; [apply N.eqb_eq; exact X1|apply N.leb_le; lia].
+Qed.
+
+End UpToDate.
+
+Print Assumptions l_maybe_append_view.
+Print Assumptions a_maybe_append_is_follower_rule.
+Print Assumptions l_append_end_view.
+Print Assumptions l_is_up_to_date_view.
+
+(* ---------- the MsgApp handler ---------- *)
+
+From RaftV Require Import Raft.
+
+Lemma set_r_log_log r l : r_log (set_r_log r l) = l.
+Proof. reflexivity. Qed.
+
+Lemma send_log r m r' : send r m = Ok r' -> r_log r' = r_log r.
+Proof.
+  unfold send. intros H.
+  destruct (if is_vote_family (m_type (if N.eqb (m_from m) NoneId then set_from m (r_id r) else m))
+            then if N.eqb (m_term (if N.eqb (m_from m) NoneId then set_from m (r_id r) else m)) 0 then Panic PSendTermUnset
+                 else Ok (if N.eqb (m_from m) NoneId then set_from m (r_id r) else m)
+            else if negb (N.eqb (m_term (if N.eqb (m_from m) NoneId then set_from m (r_id r) else m)) 0) then Panic PSendTermSet
+                 else match m_type (if N.eqb (m_from m) NoneId then set_from m (r_id r) else m) with
+                      | MsgProp | MsgReadIndex => Ok (if N.eqb (m_from m) NoneId then set_from m (r_id r) else m)
+                      | _ => Ok (set_term (if N.eqb (m_from m) NoneId then set_from m (r_id r) else m) (r_term r))
+                      end) as [m1|] eqn:E; cbn [bind] in H; [|discriminate].
+  destruct (m_type m1); try (destruct (N.eqb (m_to m1) (r_id r)); [discriminate|]); inversion H; reflexivity.
+Qed.
+
+(* handleAppendEntries: a MsgApp either leaves the follower's log alone (stale message below the
+   commit index, or the (prev index, prev term) test fails) or changes its logical log exactly as
+   the abstract maybe-append does; nothing else about the log changes *)
+Theorem handle_append_entries_view st r m r' :
+  l_wf st (r_log r) -> contig (m_index m + 1) (m_entries m) ->
+  a_base (lview st (r_log r)) <= l_committed (r_log r) ->
+  handle_append_entries st r m = Ok r' ->
+  l_wf st (r_log r') /\
+  (lview st (r_log r') = lview st (r_log r) \/
+   a_maybe_append (lview st (r_log r)) (m_index m) (m_logterm m) (m_entries m) = Some (lview st (r_log r'))).
+Proof.
+  intros W C BC H. unfold handle_append_entries in H.
+  destruct (N.ltb_spec (m_index m) (l_committed (r_log r))).
+  { apply send_log in H. rewrite H. split; [exact W|left; reflexivity]. }
+  destruct (l_maybe_append st (r_log r) (m_index m) (m_logterm m) (m_entries m) (m_commit m)) as [[l o]|] eqn:MA;
+    cbn [bind] in H; [|discriminate].
+  destruct (l_maybe_append_view st (r_log r) _ _ _ _ _ _ W C BC MA) as [W' V].
+  destruct o as [mlast|].
+  - apply send_log in H. rewrite H. rewrite set_r_log_log.
+    destruct (a_maybe_append (lview st (r_log r)) (m_index m) (m_logterm m) (m_entries m)) as [a'|].
+    + destruct V as [V _]. split; [exact W'|right]. rewrite V. reflexivity.
+    + destruct V as [_ V]. discriminate.
+  - destruct (l_find_conflict_by_term st (r_log (set_r_log r l)) (N.min (m_index m) (last_index st (set_r_log r l))) (m_logterm m)) as [hi ht].
+    apply send_log in H. rewrite H, set_r_log_log.
+    destruct (a_maybe_append (lview st (r_log r)) (m_index m) (m_logterm m) (m_entries m)) as [a'|].
+    + destruct V as [_ V]. discriminate.
+    + destruct V as [V _]. subst l. split; [exact W|left; reflexivity].
+Qed.
+
+Print Assumptions handle_append_entries_view.
